@@ -160,7 +160,12 @@ ENTRIES = [
     ('decasteljau', 's', 'auto c = manif::decasteljau(cloud, 3, 2, true); d << (int)c.size() << c.back();'),
 ]
 
-STORAGES = {'g': ['own', 'map', 'cmap'], 't': ['own', 'map', 'cmap'], 'gm': ['own', 'map'], 'tm': ['own', 'map'], 's': ['own']}
+# 'base' / 'cmapbase': the operands are seen through references to the CRTP bases (LieGroupBase<D>& / TangentBase<D>&), the way generic
+# client code is written (docs/pages/cpp/Writing-generic-code.md): this instantiates the base-class forwarders, which calls on concrete types bypass
+STORAGES = {'g': ['own', 'map', 'cmap', 'base', 'cmapbase'], 't': ['own', 'map', 'cmap', 'base', 'cmapbase'], 'gm': ['own', 'map', 'base', 'mapbase'], 'tm': ['own', 'map', 'base', 'mapbase'], 's': ['own']}
+# entries that copy their operand by its static type (decltype) make no sense through a base reference (the bases are not copyable by design)
+NO_BASE = set(['assign-from-temporary', 'view=temporary', 'tangent-assign-from-temporary', 'tangent-view=temporary', 'data()-on-non-const-variable', 'tangent-data()-on-non-const-variable',
+               'transform'])   # transform() is a member of the concrete group bases only; LieGroupBase does not declare it
 
 PRELUDE = r'''// generated by harness/gen_c19.py -- do not edit
 #include <manif/manif.h>
@@ -235,6 +240,14 @@ DECL = {
     ('tm', 'own'): '  T t(F.to); const T s(F.so); (void)t; (void)s;',
     ('tm', 'map'): '  Eigen::Map<T> t(F.bt.data()); const Eigen::Map<const T> s(F.bs.data()); (void)t; (void)s;',
     ('s', 'own'): '',
+    ('g', 'base'): '  const G Xb_(F.Xo); const G Yb_(F.Yo); const T tb_(F.to); const manif::LieGroupBase<G>& X = Xb_; const manif::LieGroupBase<G>& Y = Yb_; const manif::TangentBase<T>& t = tb_; (void)X; (void)Y; (void)t;',
+    ('g', 'cmapbase'): '  const Eigen::Map<const G> Xb_(F.bx.data()); const Eigen::Map<const G> Yb_(F.by.data()); const Eigen::Map<const T> tb_(F.bt.data()); const manif::LieGroupBase<Eigen::Map<const G>>& X = Xb_; const manif::LieGroupBase<Eigen::Map<const G>>& Y = Yb_; const manif::TangentBase<Eigen::Map<const T>>& t = tb_; (void)X; (void)Y; (void)t;',
+    ('t', 'base'): '  const T tb_(F.to); const T sb_(F.so); const manif::TangentBase<T>& t = tb_; const manif::TangentBase<T>& s = sb_; (void)t; (void)s;',
+    ('t', 'cmapbase'): '  const Eigen::Map<const T> tb_(F.bt.data()); const Eigen::Map<const T> sb_(F.bs.data()); const manif::TangentBase<Eigen::Map<const T>>& t = tb_; const manif::TangentBase<Eigen::Map<const T>>& s = sb_; (void)t; (void)s;',
+    ('gm', 'base'): '  G Xb_(F.Xo); const G Yb_(F.Yo); const T tb_(F.to); manif::LieGroupBase<G>& X = Xb_; const manif::LieGroupBase<G>& Y = Yb_; const manif::TangentBase<T>& t = tb_; (void)X; (void)Y; (void)t;',
+    ('gm', 'mapbase'): '  Eigen::Map<G> Xb_(F.bx.data()); const Eigen::Map<const G> Yb_(F.by.data()); const Eigen::Map<const T> tb_(F.bt.data()); manif::LieGroupBase<Eigen::Map<G>>& X = Xb_; const manif::LieGroupBase<Eigen::Map<const G>>& Y = Yb_; const manif::TangentBase<Eigen::Map<const T>>& t = tb_; (void)X; (void)Y; (void)t;',
+    ('tm', 'base'): '  T tb_(F.to); const T sb_(F.so); manif::TangentBase<T>& t = tb_; const manif::TangentBase<T>& s = sb_; (void)t; (void)s;',
+    ('tm', 'mapbase'): '  Eigen::Map<T> tb_(F.bt.data()); const Eigen::Map<const T> sb_(F.bs.data()); manif::TangentBase<Eigen::Map<T>>& t = tb_; const manif::TangentBase<Eigen::Map<const T>>& s = sb_; (void)t; (void)s;',
 }
 
 
@@ -252,6 +265,7 @@ def cells():
     for k, (name, kind, code) in enumerate(ENTRIES):
         code = digest_ops(code)
         for st in STORAGES[kind]:
+            if st.endswith('base') and name in NO_BASE: continue
             out.append((k, name, kind, st, code))
     return out
 
